@@ -28,7 +28,7 @@ ASSUMPTIONS = [
     "thread interleavings are those the GIL permits; switches are forced between statements via sys.monitoring",
 ]
 GATES = ["sequential_parses", "threaded_parses", "in_parser_thread_switches", "digest_checks", "failing_entries",
-         "baseline_vs_refmodel", "fresh_process_baseline_compared", "baseline_labels_vs_pinned", "cold_start_races"]
+         "baseline_vs_refmodel", "fresh_process_baseline_compared", "baseline_labels_vs_pinned", "cold_start_races", "twin_pairs"]
 
 
 def outcome_ctor(payload, labelmsm):
@@ -65,7 +65,36 @@ def outcome_reader(frame, labelmsm):
         return ("err", type(e).__name__)
 
 
-OPS = {"ctor": outcome_ctor, "parse": outcome_parse, "reader": outcome_reader}
+def outcome_parse_tmp(frame, labelmsm):
+    """Static parse of a TEMPORARY copy of the buffer (freed right after the call): object identity /
+    address reuse between consecutive calls must not matter."""
+    from pyrtcm import RTCMReader
+
+    try:
+        m = RTCMReader.parse(bytes(bytearray(frame)), validate=1, labelmsm=labelmsm)
+        return ("ok", m.identity, tuple((k, v) for k, v in m.__dict__.items() if not k.startswith("_")))
+    except Exception as e:
+        return ("err", type(e).__name__)
+
+
+def outcome_reader_tmp(frame, labelmsm):
+    """Reader used as `parsed = rdr.read()[1]` (the raw buffer is dropped at once) over a copy of the data."""
+    import io
+
+    from pyrtcm import RTCMReader
+
+    try:
+        rdr = RTCMReader(io.BytesIO(bytes(bytearray(frame))), validate=1, quitonerror=2, labelmsm=labelmsm)
+        m = rdr.read()[1]
+        if m is None:
+            return ("n", 0)
+        return ("ok", m.identity, tuple((k, v) for k, v in m.__dict__.items() if not k.startswith("_")))
+    except Exception as e:
+        return ("err", type(e).__name__)
+
+
+OPS = {"ctor": outcome_ctor, "parse": outcome_parse, "reader": outcome_reader, "parse_tmp": outcome_parse_tmp,
+       "reader_tmp": outcome_reader_tmp}
 
 
 def same(a, b):
@@ -134,6 +163,13 @@ def build_corpus(seed, per_identity):
         fr = refcrc.frame(streams.rand_defined_payload(rng))
         bad = fr[:-1] + bytes([fr[-1] ^ 0x40])
         corpus.append(dict(op="parse", data=bad, labelmsm=1, tag="badcrc", enc=None, fails=True))
+    # equal-size good / corrupt twins, parsed through temporary buffers
+    for _ in range(24):
+        fr = refcrc.frame(streams.rand_defined_payload(rng, rng.choice(("1005", "1006", "1019", "1230"))))
+        bad = fr[:-2] + bytes([fr[-2] ^ 0x10]) + fr[-1:]
+        op = rng.choice(("parse_tmp", "reader_tmp"))
+        corpus.append(dict(op=op, data=fr, labelmsm=1, tag="twin-good", enc=None, fails=False))
+        corpus.append(dict(op=op, data=bad, labelmsm=1, tag="twin-bad", enc=None, fails=True))
     for p in (b"", b"\x3e", b"\xfe\xc0", b"\x43\x50"):
         corpus.append(dict(op="ctor", data=p, labelmsm=1, tag="short", enc=None, fails=True))
     return corpus
@@ -376,6 +412,14 @@ def run(ctx):
                 if not verify(a, None, "targeted") or not verify(b, a, "pair") or not verify(a, b, "pair"):
                     return
                 ctx.hit("sequential_parses", 3)
+    # good twin then corrupt twin of the same size, back to back through temporary buffers
+    twins = [i for i, e in enumerate(corpus) if e["tag"] == "twin-good"]
+    for _ in range(20 if ctx.quick else 400):
+        for i in twins:
+            if not verify(i, None, "twins") or not verify(i + 1, i, "twin-after-twin"):
+                return
+            ctx.hit("sequential_parses", 2)
+            ctx.hit("twin_pairs")
     # many objects alive
     from pyrtcm import RTCMMessage
 
